@@ -522,6 +522,17 @@ def n_block_items_loops(P, q, n):
     P.loop_specs[(q, 1)] = dict(mode="inv", name="items", inv=inv1, variant=lambda P_, L, pre: mk_int(n.z - zint(L.new_offset)),
                                 hints={"current_item": lambda P_, nm: hint_item_lines(P_, nm), "items": hint_numpy_items,
                                        "line": lambda P_, nm: P_.fresh_str(nm), "cont_indent": hint_int})
+    # trailing blank lines of every finished item are dropped: each item keeps its first line
+    import ast as _ast
+    mi, fnode, _c = P.index.find_function(q)
+    nloops = len([x for x in _ast.walk(fnode) if isinstance(x, (_ast.For, _ast.While))])
+    if nloops >= 4:
+        P.loop_specs[(q, 2)] = dict(mode="inv", name="strip_items", hints={"item": lambda P_, nm: hint_item_lines(P_, nm).seq})
+
+        def inv3(P_, L, pre):
+            return zint(models._b_len(P_, [L.item], {})) >= 1
+        P.loop_specs[(q, 3)] = dict(mode="inv", name="strip_blank_tail", inv=inv3, variant=lambda P_, L, pre: mk_int(zint(models._b_len(P_, [L.item], {}))),
+                                    hints={"item": lambda P_, nm: hint_item_lines(P_, nm).seq})
 
 
 @contract("C12", "numpy._read_block_items", [N + "_read_block_items"], floor=6, replay="replay_parsers")
